@@ -88,7 +88,10 @@ func c02World(t *rapid.T) (map[string]string, map[string]string, []string) {
 	// shared between goroutines
 	mem["mmap"] = "{% for k, x in mp %}{{ k }}={{ x }};{% endfor %}|{% for k, x in mi %}{{ k }}:{{ x }},{% endfor %}|{{ mp|keys|join(',') }}|{{ mp|length }}|{% for x in xs|sort %}{{ x }}.{% endfor %}|{{ xs|reverse|join('-') }}|{{ xs|merge([v])|join('+') }}|{{ mi|first }}"
 	mem["mtree"] = "{% for k, x in t %}{{ k }}{% if x is iterable %}[{% include 'mtree' with {'t': x} only %}]{% else %}={{ x }}{% endif %};{% endfor %}"
-	names = append(names, "mchild", "minc", "mmac", "mbig", "mesc", "mobj", "mmap", "mtree")
+	// tags that capture the output of their body before they write it (spaceless, apply, set from a
+	// macro call): a capture buffer kept on the shared node would be shared between goroutines
+	mem["mcap"] = "{% spaceless %}<ul> {% for i in range(1, 12) %}<li> {{ v }}-{{ i }} </li> {% endfor %}</ul>{% endspaceless %}|{% apply upper %}a{{ v }}{% for i in [1, 2, 3] %}b{{ v }}{% endfor %}{% endapply %}|{% macro cm(x) %}<{{ x }}>{% endmacro %}{% set c = cm(v) %}{{ c }}{{ c|length }}|{% spaceless %}<b> {{ s }} </b> <i>{{ v }}</i>{% endspaceless %}"
+	names = append(names, "mchild", "minc", "mmac", "mbig", "mesc", "mobj", "mmap", "mtree", "mcap")
 	return fs, mem, names
 }
 
